@@ -199,20 +199,49 @@ var handSpecs = []ruleSpec{
 				"var z *(int) = &a; c = *z + 1", "var m map[(string)]int; c = len(m)", "c = int((uint)(u))")
 		},
 		rewrite: fromRegexp(simplifyToRe, 1, 2), class: classPurity},
-	{checker: "unlambda", kind: "stmts",
+	{checker: "unlambda", kind: "stmts", weight: 2,
+		// callee forms: package function, package-qualified function, method value of a struct variable /
+		// of a pointer variable, func-typed struct field (value and pointer), func-typed package variable,
+		// func-typed local captured by reference — each optionally followed by a reassignment of what the
+		// callee expression reads, before the function value is called
 		gen: func(p func(...string) string) string {
-			switch p("f", "m", "m", "g") {
-			case "f":
+			re := func(stmt string) string { // reassignment or not
+				if p("y", "y", "n") == "y" {
+					return stmt + "; "
+				}
+				return ""
+			}
+			switch p("pkg", "sel", "mv", "mp", "fv", "fp", "gv", "lv", "lv0") {
+			case "pkg":
 				return "f := func(x int) int { return hi(x) }; c = f(a) + f(b)"
-			case "g":
+			case "sel":
+				return "f := func(x string) string { return strings.ToUpper(x) }; s = f(t)"
+			case "mv":
+				return "sv := st{a}; f := func(x int) int { return sv.add(x) }; " + re("sv.n = "+p("b", "a + 1", "7")) + "c = f(1)"
+			case "mp":
+				return "ps := &st{a}; f := func(x int) int { return ps.add(x) }; " + re(p("ps = &st{b}", "ps.n = b")) + "c = f(1)"
+			case "fv":
+				return "ob := obj{f: hi}; f := func(x int) int { return ob.f(x) }; " + re(p("ob.f = hj", "ob = obj{f: hj}")) + "c = f(a)"
+			case "fp":
+				return "ob := &obj{f: hi}; f := func(x int) int { return ob.f(x) }; " + re(p("ob.f = hj", "ob = &obj{f: hj}")) + "c = f(a)"
+			case "gv":
+				return "gf = hi; f := func(x int) int { return gf(x) }; " + re("gf = hj") + "c = f(a)"
+			case "lv0":
 				return "f := func() int { return fi() }; c = f() + f()"
 			}
-			return "sv := st{a}; f := func(x int) int { return sv.add(x) }; sv.n = " + p("b", "a + 1", "7") + "; c = f(1)"
+			return "lf := hi; f := func(x int) int { return lf(x) }; " + re("lf = hj") + "c = f(a)"
 		},
 		rewrite: fromRegexp(replaceRe, 1, 2),
 		class: func(orig, _ string) string {
-			if strings.Contains(orig, "sv.add") {
+			switch {
+			case strings.Contains(orig, "sv.add"):
 				return "method-value-capture"
+			case strings.Contains(orig, "ob.f("):
+				return "func-field-callee"
+			case strings.Contains(orig, "gf(x)") || strings.Contains(orig, "lf(x)"):
+				return "func-variable-callee"
+			case strings.Contains(orig, "ps.add"):
+				return "pointer-method-value"
 			}
 			return classPurity(orig, "")
 		}},
@@ -640,4 +669,105 @@ func runNewDeref(meta *common.Meta, outDir string) {
 	meta.CaseFiles = append(meta.CaseFiles, "cases_c10_newderef.v")
 	meta.Evaluations += len(bodies)
 	meta.Distribution["newderef_types_compared"] = len(bodies)
+}
+
+// ---------------------------------------------------------------- unlambda: callee forms vs the model's decision
+
+var unlambdaBodies = []string{
+	"f := func(x int) int { return hi(x) }; c = f(a)",
+	"f := func(x string) string { return strings.ToUpper(x) }; s = f(t)",
+	"sv := st{a}; f := func(x int) int { return sv.add(x) }; sv.n = b; c = f(1)",
+	"ps := &st{a}; f := func(x int) int { return ps.add(x) }; ps = &st{b}; c = f(1)",
+	"ob := obj{f: hi}; f := func(x int) int { return ob.f(x) }; ob.f = hj; c = f(a)",
+	"ob := &obj{f: hi}; f := func(x int) int { return ob.f(x) }; ob.f = hj; c = f(a)",
+	"gf = hi; f := func(x int) int { return gf(x) }; gf = hj; c = f(a)",
+	"lf := hi; f := func(x int) int { return lf(x) }; lf = hj; c = f(a)",
+	"f := func(x int) int { return (&st{a}).add(x) }; c = f(b)",
+	"f := func(x int) int { return w.peek() + x }; c = f(b)",
+}
+
+func runUnlambdaTie(meta *common.Meta, outDir string) {
+	const sig = exprgen.Params + ", tm time.Time"
+	var src strings.Builder
+	src.WriteString(rulesLintHeader + exprgen.LintPreamble)
+	for i, b := range unlambdaBodies {
+		fmt.Fprintf(&src, "func ul%d(%s) {\n\t%s\n\t_, _, _, _ = c, s, a, b\n}\n", i, sig, b)
+	}
+	l, err := exprgen.Load("p.go", src.String())
+	if err != nil {
+		panic(err)
+	}
+	ws, err := l.Run("unlambda")
+	if err != nil {
+		panic(err)
+	}
+	flagged := map[string]bool{}
+	for _, w := range ws {
+		flagged[l.FuncOf(w.Pos)] = true
+	}
+	var bodies, idx []string
+	for _, d := range l.File.Decls {
+		fd, ok := d.(*ast.FuncDecl)
+		if !ok || !strings.HasPrefix(fd.Name.Name, "ul") {
+			continue
+		}
+		var callee string
+		ast.Inspect(fd.Body, func(n ast.Node) bool {
+			fl, ok := n.(*ast.FuncLit)
+			if !ok || callee != "" {
+				return true
+			}
+			if len(fl.Body.List) != 1 {
+				return false
+			}
+			ret, ok := fl.Body.List[0].(*ast.ReturnStmt)
+			if !ok || len(ret.Results) != 1 {
+				return false
+			}
+			call, ok := ret.Results[0].(*ast.CallExpr)
+			if !ok {
+				return false
+			}
+			isPtr := func(e ast.Expr) bool { _, ok := l.Info.TypeOf(e).Underlying().(*types.Pointer); return ok }
+			switch fun := call.Fun.(type) {
+			case *ast.Ident:
+				switch l.Info.ObjectOf(fun).(type) {
+				case *types.Func:
+					callee = "CPkgFunc " + coqfmt.Str(fun.Name)
+				case *types.Var:
+					callee = "CFuncVar " + coqfmt.Str(fun.Name)
+				}
+			case *ast.SelectorExpr:
+				x, ok := fun.X.(*ast.Ident)
+				if !ok {
+					return false
+				}
+				if _, isPkg := l.Info.ObjectOf(x).(*types.PkgName); isPkg {
+					callee = "CPkgFunc " + coqfmt.Str(x.Name+"."+fun.Sel.Name)
+					return false
+				}
+				switch l.Info.ObjectOf(fun.Sel).(type) {
+				case *types.Var:
+					callee = fmt.Sprintf("CFuncField %s %v %s", coqfmt.Str(x.Name), isPtr(x), coqfmt.Str(fun.Sel.Name))
+				case *types.Func:
+					callee = fmt.Sprintf("CMethod %s %v %s", coqfmt.Str(x.Name), isPtr(x), coqfmt.Str(fun.Sel.Name))
+				}
+			}
+			return false
+		})
+		if callee == "" {
+			continue // callee shapes outside the four modelled forms (composite receivers, non-call bodies)
+		}
+		bodies = append(bodies, fmt.Sprintf("(%s, %v)", callee, flagged[fd.Name.Name]))
+		idx = append(idx, fmt.Sprintf("%s => flagged=%v", callee, flagged[fd.Name.Name]))
+	}
+	common.WriteFile(filepath.Join(outDir, "cases_c10_unlambda.v"),
+		"From GC Require Import Base Model_Expr Model_Rewrites.\n"+
+			"Definition case_ok (c : callee * bool) : bool := Bool.eqb (unlambda_flags (fst c)) (snd c).\n"+
+			"Definition cases : list (callee * bool) := [\n"+strings.Join(bodies, ";\n")+"\n].\n"+
+			"Definition M := Eval vm_compute in mismatches case_ok cases.\nPrint M.\n")
+	common.WriteFile(filepath.Join(outDir, "cases_c10_unlambda.index.txt"), strings.Join(idx, "\n")+"\n")
+	meta.CaseFiles = append(meta.CaseFiles, "cases_c10_unlambda.v")
+	meta.Evaluations += len(bodies)
+	meta.Distribution["unlambda_callee_forms_compared"] = len(bodies)
 }
